@@ -1236,6 +1236,10 @@ class Machine:
         things = [(s.idx, s.a) for s in self.slots]
         for s in list(self.slots):
             things.append((cls(model.entries_of(s.a, s.idx.common), s.idx.common, tuple(int(x) for x in s.a.shape)), s.a))
+        # an application subclass of iindex holding the same index is still the same index
+        sub_cls = _subclass_of(cls)
+        for s in list(self.slots)[:2]:
+            things.append((sub_cls(model.entries_of(s.a, s.idx.common), s.idx.common, tuple(int(x) for x in s.a.shape)), s.a))
         # near-twins: the same index with ONE cell changed must compare unequal (in both directions)
         import random as _random
 
@@ -1288,6 +1292,15 @@ class Machine:
 
 class Skip(Exception):
     pass
+
+
+_SUBCLASSES = {}
+
+
+def _subclass_of(cls):
+    if cls not in _SUBCLASSES:
+        _SUBCLASSES[cls] = type("ApplicationIndex", (cls,), {})
+    return _SUBCLASSES[cls]
 
 
 # ----------------------------------------------------------------------------- run / replay
